@@ -480,3 +480,54 @@ Proof.
   intros Hrb HR HS Hg Hgl Hnlit HnL Ho Hic Hlb Hle Hwb Hwe Hn2 Hlm HLm Hf1 Hf2 R.
   apply tr_rstr_find_sec with (bs := bs) (gold := gold); try assumption; lia.
 Qed.
+
+(* ------------------------------------------------------------------ composed with the model theorems *)
+Lemma nz_b2z b : nz (b2z b) = b.
+Proof. destruct b; reflexivity. Qed.
+Lemma int_ok_b2z b : int_ok (b2z b).
+Proof. destruct b; unfold int_ok; cbn; lia. Qed.
+Lemma lit_in_pattern ic p rs : rstr_simple ic p = Some rs -> nonul p ->
+  nonul (r_str rs) /\ (length (r_str rs) <= length p)%nat /\ r_icase rs = ic.
+Proof.
+  intros H Hp. destruct (rstr_simple_sound _ _ _ H) as (Ep & _ & Eic). split; [|split; [|exact Eic]].
+  - unfold nonul in *. rewrite Ep in Hp. unfold spat_string, spat_of in Hp. cbn [p_lit] in Hp.
+    apply Forall_app in Hp. destruct Hp as [_ Hp]. apply Forall_app in Hp. destruct Hp as [_ Hp].
+    apply Forall_app in Hp. destruct Hp as [Hp _]. exact Hp.
+  - apply (f_equal (@length _)) in Ep. unfold spat_string, spat_of in Ep. cbn [p_lit] in Ep. rewrite !app_length in Ep. lia.
+Qed.
+
+(* the C TEXT of the fast path returns the declarative spec: for every pattern the classifier accepts
+   (compiled into a struct rstr as rstr_simple leaves it), every newline-terminated line, every flag word and
+   every group count, the translated rstr_find returns 0 and writes group 0 = the leftmost position at which
+   the spec holds (groups >= 1 unset), or returns -1 and leaves the memory alone.  The line's block is exactly
+   content ++ "\n" ++ NUL: an Ok result means that no byte outside the line and its terminator was read. *)
+Theorem tr_rstr_find_spec m rb bs sb gb ic p rs content n flg gold d fuel :
+  rstr_simple ic p = Some rs -> nonul p -> ~ In 10%N p -> nonul content -> ~ In 10%N content ->
+  nth_error m rb = Some (rstr_block bs (b2z (r_icase rs)) (b2z (r_lbeg rs)) (b2z (r_lend rs)) (b2z (r_wbeg rs)) (b2z (r_wend rs))) ->
+  str_at m bs (r_str rs) -> str_at m sb (content ++ [10%N]) ->
+  nth_error m gb = Some gold -> length gold = (2 * Z.to_nat n)%nat -> 2 * n <= 2147483647 ->
+  Z.of_nat (length p) <= 2147483647 -> Z.of_nat (length content) < 2147483647 ->
+  (length p < fuel)%nat -> (length content + Z.to_nat n + 2 < fuel)%nat ->
+  callf cprog fuel (S (S d)) F_rstr_find [VPtr rb 0; VPtr sb 0; VInt n; VPtr gb 0; VInt flg] m =
+  match spec_find (spat_of rs) ic (nz (Z.land flg RE_NOTBOL)) content with
+  | Some i => Ok (VInt 0, upd m gb (grp_block (rstr_groups (Z.to_nat n) (Z.of_nat i) (Z.of_nat (i + length (r_str rs))))))
+  | None => Ok (VInt (-1), m)
+  end.
+Proof.
+  intros Hs Hp Hp10 Hc Hc10 Hrb HR HS Hg Hgl Hn2 Hpm Hcm Hf1 Hf2.
+  destruct (lit_in_pattern ic p rs Hs Hp) as (Hnl & Hll & Eic).
+  assert (HnL : nonul (content ++ [10%N])).
+  { unfold nonul in *. apply Forall_app. split; [exact Hc|]. constructor; [unfold byte_ok; lia|constructor]. }
+  assert (Hz : ~ In 0%N content).
+  { intro Hin. unfold nonul in Hc. rewrite Forall_forall in Hc. specialize (Hc _ Hin). unfold byte_ok in Hc. lia. }
+  assert (HLl : length (content ++ [10%N]) = S (length content)) by (rewrite app_length; cbn; lia).
+  destruct (tr_rstr_find m rb bs sb gb (r_str rs) (content ++ [10%N]) 0 (b2z (r_icase rs)) (b2z (r_lbeg rs)) (b2z (r_lend rs))
+              (b2z (r_wbeg rs)) (b2z (r_wend rs)) n flg gold false d fuel Hrb HR HS Hg Hgl Hnl HnL ltac:(lia)
+              (int_ok_b2z _) (int_ok_b2z _) (int_ok_b2z _) (int_ok_b2z _) (int_ok_b2z _) Hn2 ltac:(lia) ltac:(lia) ltac:(lia) ltac:(lia))
+    as [E _].
+  change (Z.of_nat 0) with 0 in E. cbn [skipn] in E. rewrite E. clear E.
+  unfold rs_of. rewrite !nz_b2z.
+  replace (mk_rstr (r_str rs) (r_icase rs) (r_lbeg rs) (r_lend rs) (r_wbeg rs) (r_wend rs)) with rs by (destruct rs; reflexivity).
+  rewrite (equiv_spec_pat ic p rs content _ false Hs Hz Hc10 Hp10). unfold spec_res. cbn [spat_of p_lit].
+  destruct (spec_find _ _ _ _); reflexivity.
+Qed.
